@@ -183,6 +183,8 @@ func firstDiffBytes(a, b []byte) int {
 
 var injectTokens = []string{"1.5", "'c'", "`raw`", "0x10", "017", "1_000", "0b11", "9223372036854775808", "18446744073709551616", "\"str\"", "ünï", "-", "=", ";", ",", "(", ")", "{", "}", "[", "]", ".", "<", ">",
 	"enum", "oneway", "message", "any", "import", "options", "struct", "service", "subservice", "int32", "X", "0", "7", "@", "#", "\\", "'ab'", "\"unterminated", "/* unterminated", "1e", "0x",
+	// string values that begin or end with an escaped quote
+	"\"\\\"\\\"\"", "\"a\\\"\"", "\"\\\"b\"",
 	// defects only the scanner sees while the token stream stays grammatical
 	"09", "08", "\"a\\qb\"", "\x00", "\"\xff\"", "/* a \x00 b */", "// \x00\n", "\"\x00\""}
 
